@@ -6,6 +6,7 @@ package logicalplan
 import (
 	"fmt"
 
+	"github.com/prometheus/prometheus/model/labels"
 	"github.com/prometheus/prometheus/promql/parser"
 
 	"github.com/thanos-community/promql-engine/api"
@@ -84,6 +85,12 @@ func (m DistributedExecutionOptimizer) Optimize(plan parser.Expr) parser.Expr {
 			if aggr.Param != nil && readsSeries(aggr.Param) {
 				return true
 			}
+			// Series of different partitions can end up with the same label set
+			// once the metric name is dropped, which fails the query. No single
+			// partition can detect that, so such operands are evaluated centrally.
+			if mayDropDistinctNames(aggr.Expr) {
+				return true
+			}
 			localAggregation := aggr.Op
 			if aggr.Op == parser.COUNT {
 				localAggregation = parser.SUM
@@ -133,6 +140,37 @@ func readsSeries(expr parser.Expr) bool {
 		case *parser.VectorSelector, *parser.MatrixSelector:
 			found = true
 		}
+		return nil
+	})
+	return found
+}
+
+// mayDropDistinctNames reports whether expr is more than a plain selector and
+// reads a selector that is not bound to one metric name, so that evaluating it
+// can map series which differ in the name only to one label set.
+func mayDropDistinctNames(expr parser.Expr) bool {
+	for {
+		paren, ok := expr.(*parser.ParenExpr)
+		if !ok {
+			break
+		}
+		expr = paren.Expr
+	}
+	if _, ok := expr.(*parser.VectorSelector); ok {
+		return false
+	}
+	found := false
+	parser.Inspect(expr, func(node parser.Node, _ []parser.Node) error {
+		vs, ok := node.(*parser.VectorSelector)
+		if !ok {
+			return nil
+		}
+		for _, m := range vs.LabelMatchers {
+			if m.Name == labels.MetricName && m.Type == labels.MatchEqual {
+				return nil
+			}
+		}
+		found = true
 		return nil
 	})
 	return found
